@@ -19,7 +19,7 @@ import ast
 import z3
 from . import terms as T
 from .terms import Unsupported, is_sym
-from .values import Ref, Arr, CArr, Poison, sym_array, materialise
+from .values import Ref, Arr, CArr, Poison, sym_array, materialise, cell_sort
 from .interp import Explorer, PyRaise, PathInfeasible, BreakSig
 
 
@@ -126,6 +126,8 @@ def summarise_for(interp, node, st, lo, hi):
         a0 = st.heap[v0.id]
         if v0.id in mid_arr:
             continue
+        if cell_sort(a0) == "xreal":
+            raise Unsupported(f"{n}: array with possibly-NaN cells is written in a summarised loop")
         am = sym_array(T.Fresh.name(n + "_mid"), a0.shape, a0.sort)
         mid_arr[v0.id] = (am.func, a0, n)
         st.heap[v0.id] = am
@@ -344,6 +346,8 @@ def summarise_for(interp, node, st, lo, hi):
                 continue
             G = T.lor(*[g(tuple(idx)) for g, _ in a1.ups])
             V = a1.get(tuple(idx))
+            if isinstance(V, T.XR):
+                raise Unsupported(f"{aname}: possibly-NaN value stored in a summarised loop")
             check_no_fresh(T.to_z3(G) if is_sym(G) else None, aname)
             check_no_fresh(V if is_sym(V) else None, aname)
             layers.append((pc, G, V))
@@ -538,7 +542,7 @@ def invariant_loop(interp, node, st, man, lo, hi):
                 continue
             if isinstance(v0, Ref) and isinstance(state.heap.get(v0.id), Arr):
                 a0 = state.heap[v0.id]
-                am = sym_array(T.Fresh.name(n + "_h"), a0.shape, a0.sort)
+                am = sym_array(T.Fresh.name(n + "_h"), a0.shape, cell_sort(a0))
                 if man.hints and n in man.hints.get("frame_prefix", {}):
                     pass
                 state.heap[v0.id] = am
